@@ -3,6 +3,7 @@ from .common import *
 from spec.protocol_doc import in_docset, sign_named, block_named
 from .hsm2dongle_basic import ok
 from .hsm2dongle_state import frame_n, frame_some, be_int
+from .pin import pin_policy
 
 PINOBJ = OBJ("ledger.pin:FileBasedPin", logger=OPAQUE("logger"), _path=STR_, _pin=BYTES_, _needs_change=BOOL_,
              _changing=BOOL_, _new_pin=ONEOF(NONE_, BYTES_))
@@ -17,12 +18,25 @@ def ci(old):
     return field(old.self, "_comm_issue")
 
 
+def proto_invariant(self):
+    """invariant of the protocol object between requests: a valid PIN is loaded and no change is in progress"""
+    return len(self.pin._pin) == 8 and not self.pin._changing and pin_policy(self.pin._pin)
+
+
+def pin_ok(p):
+    from_policy = pin_policy(p)
+    return from_policy
+
+
 # ---- ensure_connection ---------------------------------------------------------------------------
 @contract("ledger/protocol.py", "HSM2ProtocolLedger.ensure_connection", serves=ALLH + ["C09", "C01", "C05"])
 class EnsureConnection(Contract):
     self_spec = PROTO
     modifies_self = dict(_comm_issue=BOOL_)
-    assume_only = True     # TODO verify against initialize_device's contract
+
+    def pin_invariant(self):
+        return len(self.pin._pin) == 8 and not self.pin._changing and pin_ok(self.pin._pin)
+    requires = [pin_invariant]
 
     def nothing_when_no_issue(self, g, old):
         return implies(not ci(old), ghost_same_log(g, old.g) and not self._comm_issue)
@@ -37,11 +51,8 @@ class EnsureConnection(Contract):
     def still_pending(self, old, g):
         return ci(old) and self._comm_issue and (g.conn > old.g.conn or g.disc > old.g.disc) and g.nx >= old.g.nx
     raises = {
-        ERR_COMM: Exc(args=[STR_], post=[still_pending]),
+        ERR_COMM: Exc(args=[STR_, STR_], post=[still_pending]),
         PINT: Exc(post=[still_pending]),
-        ERR_RESULT: Exc(args=[INT_], post=[still_pending, x_err]),
-        ERR_TIMEOUT: Exc(args=[STR_], post=[still_pending, x_timeout]),
-        ERR_DONGLE: Exc(args=[STR_], post=[still_pending]),
     }
 
 
@@ -95,7 +106,7 @@ class GetPubkey(Contract):
     modifies_self = dict(_comm_issue=BOOL_)
 
     def validated(request): return jtag(request) == 6 and path_wf(request["keyId"])
-    requires = [validated]
+    requires = [validated, proto_invariant]
 
     def one_query_for_the_requested_path(request, g, old):
         return implies(not ci(old), ghost_step(g, old.g, apdu_of(0x04, pathbin(request["keyId"]))))
@@ -122,6 +133,7 @@ class BlockchainState(Contract):
                                               total_difficulty=INT_, in_progress=BOOL_, already_validated=BOOL_,
                                               found_best_block=BOOL_)))
     modifies_self = dict(_comm_issue=BOOL_)
+    requires = [proto_invariant]
 
     def success_iff_device_answered(result, g, old):
         return implies(not ci(old), (result[0] == 0) == (ok(g) and g.nx == old.g.nx + 9))
@@ -154,6 +166,7 @@ class ResetAdvanceBlockchain(Contract):
     params = dict(request=JSON_)
     result = RES()
     modifies_self = dict(_comm_issue=BOOL_)
+    requires = [proto_invariant]
 
     def success_iff_device_answered(result, g, old):
         return implies(not ci(old), (result[0] == 0) == ok(g))
@@ -167,6 +180,7 @@ class GetBlockchainParameters(Contract):
     params = dict(request=JSON_)
     result = RES(parameters=PYDICT(checkpoint=STR_, minimum_difficulty=INT_, network=STR_))
     modifies_self = dict(_comm_issue=BOOL_)
+    requires = [proto_invariant]
 
     def success_iff_device_answered(result, g, old):
         return implies(not ci(old), (result[0] == 0) == ok(g))
@@ -198,7 +212,7 @@ class Sign(Contract):
     exception_serves = ("C03", "C04")
 
     def validated(request): return sign_validated(request) and path_wf(request["keyId"])
-    requires = [validated]
+    requires = [validated, proto_invariant]
 
     # ---- C02 second stage: rejected => nothing sent to the device
     @only("C02")
@@ -259,7 +273,7 @@ class SignerHeartbeatHandler(Contract):
     def validated(request):
         return (jtag(request) == 6 and jhas(request, "udValue") and jtag(request["udValue"]) == 4
                 and is_hex(jstr(request["udValue"])) and len(unhex(jstr(request["udValue"]))) == 16)
-    requires = [validated]
+    requires = [validated, proto_invariant]
 
     @only("C13")
     def fields_verbatim(result, request, g, old):
@@ -296,7 +310,7 @@ class UIHeartbeatHandler(Contract):
     def validated(request):
         return (jtag(request) == 6 and jhas(request, "udValue") and jtag(request["udValue"]) == 4
                 and is_hex(jstr(request["udValue"])) and len(unhex(jstr(request["udValue"]))) == 32)
-    requires = [validated]
+    requires = [validated, proto_invariant]
 
     @only("C13")
     def starts_by_asking_the_mode(g, old):
